@@ -29,7 +29,7 @@ W = 'circus.watcher:Watcher.'
 
 
 def check(run, ctx):
-    run.each(ctx, [r1, r2, r3, r5, r6, r7, r8, r9])
+    run.each(ctx, [r1, r2, r3, r5, r6, r7, r8, r9, r10])
 
 
 def _f(ctx):
@@ -441,3 +441,9 @@ def r9(run, ctx):
                   'two watchers of that name, the old workers keep the closed socket',
                   construct='RECREATED-NOT-REMOVED')
     run.count('R9', n, 2, 'membership tests in reload_from_config')
+
+
+def r10(run, ctx):
+    run.rule('R10', 'reloadconfig leaves the watchers created through the API alone')
+    from rules.common import reload_spares_ignored
+    reload_spares_ignored(run, ctx, 'R10', 'watchers')
